@@ -139,7 +139,10 @@ def run(ctx):
             cols_c = None
         ph_c = ctx.func("pyxform.parsing.sheet_headers:process_header", "C11.R2")
         for canon in ("name", "title", "id_string", "version", "style", "default_language", "public_key", "submission_url", "instance_name", "namespaces", "auto_send", "auto_delete", "omit_instanceID"):
-            for spelled in (canon.upper(), canon.capitalize(), canon.lower(), " " + canon.replace("_", " ").title() + " "):
+            spellings = [canon.upper(), canon.capitalize(), canon.lower(), " " + canon.replace("_", " ").title() + " "]
+            if "_" in canon:  # words separated by other white space (a pasted no-break space, a tab, a line break in the cell)
+                spellings += [canon.replace("_", "\u00a0").title(), canon.replace("_", "\t").title(), canon.replace("_", "\n").title()]
+            for spelled in spellings:
                 itc.reset([])
                 try:
                     got_c = itc.call_function(ph_c, [], {"header": spelled, "use_double_colon": False, "header_aliases": sh, "header_columns": cols_c or set()}, None, ph_c.node)
@@ -366,7 +369,47 @@ def run(ctx):
     rules.append(r6)
     from .c13 import cell_cleaning_rule
     rules.append(cell_cleaning_rule(ctx, "C11", "C11.R7"))
+    rules.append(_create_survey_history_rule(ctx))
     return rules
+
+
+def _create_survey_history_rule(ctx):
+    """builder.create_survey's id_string= / title= arguments override the section's own settings for THAT build only: the
+    same parsed section built again without the arguments carries its own settings again (evaluated: two and three
+    successive builds from one section dict; the element builder is a stub that records what it is handed and returns an
+    object carrying the dict's id_string / title)."""
+    r = Rule("C11", "C11.R8", "create_survey's id/title arguments apply to one build only (history over one section dict)", floor=6,
+             necessary="an override stored in the caller's section dict is the id / title of every later build from it")
+    repo = ctx.repo
+    cs = ctx.func("pyxform.builder:create_survey", "C11.R8")
+
+    def h_builder(i, a, k, n):
+        def csefd(i2, a2, k2, n2):
+            d = k2.get("d", a2[0] if a2 else None)
+            return Obj(None, {"id_string": d.get("id_string"), "title": d.get("title"), "name": d.get("name")}, name="survey")
+        return Obj(None, {"set_sections": lambda i2, a2, k2, n2: None, "create_survey_element_from_dict": csefd}, name="builder")
+
+    SECTIONS = {"section with its own id and title": {"type": "survey", "name": "data", "id_string": "own_id", "title": "Own title", "children": []},
+                "section without id and title": {"type": "survey", "name": "data", "children": []}}
+    for sname, sec in SECTIONS.items():
+        for hist in ((("A", "TA"), (None, None)), (("A", None), (None, "TB"), (None, None)), ((None, None), ("B", "TB"), (None, None))):
+            main = {k: (list(v) if isinstance(v, list) else v) for k, v in sec.items()}
+            it = ctx.interp("C11.R8", hooks={"new:SurveyElementBuilder": h_builder})
+            outs = []
+            try:
+                for ids, ttl in hist:
+                    it.reset([])
+                    sv = it.call_function(cs, [], {"name_of_main_section": "main", "sections": {"main": main}, "id_string": ids, "title": ttl}, None, cs.node)
+                    outs.append((sv.attrs.get("id_string"), sv.attrs.get("title")))
+            except Raised as e:
+                r.fail(f"create_survey[{sname}; history {hist}]", f"evaluates ({e.exc_name}{e.exc_args})", cs.loc())
+                continue
+            own_id = sec.get("id_string", "main")
+            own_title = sec.get("title")
+            want = [(ids if ids is not None else own_id, ttl if ttl is not None else own_title) for ids, ttl in hist]
+            r.check(outs == want, f"create_survey[{sname}; (id, title) arguments {hist}]", "each build carries its own arguments, else the section's own settings", cs.loc(),
+                    why_fail=f"builds carried {outs}, expected {want}")
+    return r
 
 
 def _positions(root) -> dict:
